@@ -26,6 +26,7 @@ PROP = {'streams': [('c16', 600, 24000)],
               'levelOk_policy',
               'level_sound_policy',
               'level_sound_strict',
+              'level_sound_linked',
               'level_sound_strict_sets'],
  'assumptions': ['`level_sound_strict` proves the full statement `level_sound` (static policy sets, every construct, strict mode) from typechecker '
                  'acceptance + level acceptance + conformance alone: `Kinds` and `Faithful` (on store and slice) are derived from C03\'s strict-mode '
